@@ -49,6 +49,20 @@ def candidates(arr, rng):
     return sorted(c)
 
 
+_HANGS = [0]
+
+
+def guarded(fn, *args):
+    """run the real function under a watchdog: a hang becomes the value "NON-TERMINATION" (after 10 hangs the limit drops
+    to 0.25 s so that a tree where many inputs hang is still reported within the time of a quick check)"""
+    try:
+        with watchdog(2 if _HANGS[0] < 10 else 0.25):
+            return fn(*args)
+    except Timeout:
+        _HANGS[0] += 1
+        return "NON-TERMINATION"
+
+
 def replay_1d(val, arr):
     try:
         with watchdog(2):
@@ -70,7 +84,8 @@ def check_fill(edges, fills):
         before = copy.deepcopy(h.bins)
         noor = h.n_out_of_range
         edges_before = copy.deepcopy(h.edges)
-        h.fill(coord if dim > 1 else coord[0], w)
+        if guarded(h.fill, coord if dim > 1 else coord[0], w) == "NON-TERMINATION":
+            return "fill(%r, %r) does not terminate" % (coord, w)
         idx = [ref(c, e) for c, e in zip(coord, edges)]
         inr = all(0 <= i < len(e) - 1 for i, e in zip(idx, edges))
         exp = copy.deepcopy(before)
@@ -105,10 +120,7 @@ def body(R):
         arr = gen_edges(rng)
         for v in candidates(arr, rng):
             try:
-                with watchdog(2):
-                    got = get_bin_on_value_1d(v, arr)
-            except Timeout:
-                got = "NON-TERMINATION"
+                got = guarded(get_bin_on_value_1d, v, arr)
             except Exception as e:
                 got = "EXC %s" % type(e).__name__
             exp = ref(v, arr)
@@ -123,7 +135,10 @@ def body(R):
             arr = list(arr)
             for v2 in range(-2, 15):
                 v = v2 / 2
-                got = get_bin_on_value_1d(v, arr)
+                try:
+                    got = guarded(get_bin_on_value_1d, v, arr)
+                except Exception as e:
+                    got = "EXC %s" % type(e).__name__
                 R.case(True)
                 R.check(got == ref(v, arr), "get_bin_on_value_1d", "get_bin_on_value_1d(%r, %r) = %r, expected %r" % (v, arr, got, ref(v, arr)),
                         {"val": v, "arr": arr}, {"fn": "replay_1d", "args": [v, arr]})
@@ -147,8 +162,11 @@ def body(R):
                 {"fn": "replay_fill", "args": [edges, fills]})
         # get_bin_on_value agrees pointwise with the 1-d reference
         coord = fills[0][0]
-        got = get_bin_on_value(coord if dim > 1 else coord[0], edges if dim > 1 else edges[0])
-        R.check(list(got) == [ref(c, e) for c, e in zip(coord, edges)], "get_bin_on_value",
+        try:
+            got = guarded(get_bin_on_value, coord if dim > 1 else coord[0], edges if dim > 1 else edges[0])
+        except Exception as e:
+            got = "EXC %s" % type(e).__name__
+        R.check(not isinstance(got, str) and list(got) == [ref(c, e) for c, e in zip(coord, edges)], "get_bin_on_value",
                 "get_bin_on_value(%r, %r) = %r" % (coord, edges, got), {"coord": coord, "edges": edges})
     R.scope("Histogram element fill/compute", "%d histories of 8 fills with and without context; weight conservation" % n_h, False)
     for _ in range(n_h):
@@ -156,15 +174,25 @@ def body(R):
         edges = [gen_edges(rng)[:rng.randint(2, 5)] for _ in range(dim)]
         el = Histogram(copy.deepcopy(edges) if dim > 1 else list(edges[0]))
         n = 0
+        hung = False
         for k in range(8):
             coord = [rng.choice(e + [e[0] - 1, e[-1] + 1, (e[0] + e[-1]) / 2]) for e in edges]
             data = tuple(coord) if dim > 1 else coord[0]
-            el.fill((data, {"k": k}) if k % 2 else data)
+            try:
+                if guarded(el.fill, (data, {"k": k}) if k % 2 else data) == "NON-TERMINATION":
+                    hung = True
+                    break
+            except Exception:
+                hung = True
+                break
             n += 1
+        R.case(True)
+        if hung:
+            R.check(False, "Histogram.weight", "Histogram element over %r: fill(%r) hangs or raises" % (edges, data), {"edges": edges})
+            continue
         res = list(el.compute())
         hist = res[0][0]
         tot = flat_sum(hist.bins) + hist.n_out_of_range
-        R.case(True)
         R.check(len(res) == 1 and tot == n, "Histogram.weight", "Histogram element: sum(bins)+n_out_of_range = %r after %d fills" % (tot, n),
                 {"edges": edges})
     R.scope("check_edges_increasing", "edge arrays of length 0..4 over {0,1,2} in 1 and 2 dimensions: LenaValueError iff not strictly increasing or too short", True)
